@@ -126,6 +126,7 @@ class SymExec(object):
         self.attr_hook = attr_hook        # f(base_value, attr, state) -> value | NotImplemented
         self.name_hook = name_hook
         self.syms = {}
+        self.canonical_negations = True
 
     # ---------------------------------------------------------------- symbols
     def sym(self, text):
@@ -290,7 +291,7 @@ class SymExec(object):
             ctxt, neg = self.cond_text(n.test, st)
             known = st.cond(ctxt)
             if known is None and self.test_hook:
-                known = self.test_hook(ctxt, n.test, st)
+                known = self.test_hook(ctxt, self.canon_test(n.test)[0], st)
             if known is not None:
                 t = known != neg
         if t is True:
@@ -540,11 +541,35 @@ class SymExec(object):
             return True
         return None
 
+    def canon_test(self, test):
+        """-> (positive test node, negated?) with `not`, `is not`, `!=`, `not in` peeled off (what cond_text records)"""
+        neg = False
+        while True:
+            if isinstance(test, ast.UnaryOp) and isinstance(test.op, ast.Not):
+                neg = not neg
+                test = test.operand
+                continue
+            if self.canonical_negations and isinstance(test, ast.Compare) and len(test.ops) == 1 and isinstance(test.ops[0], (ast.IsNot, ast.NotEq, ast.NotIn)):
+                pos = {ast.IsNot: ast.Is, ast.NotEq: ast.Eq, ast.NotIn: ast.In}[type(test.ops[0])]()
+                test = ast.copy_location(ast.Compare(left=test.left, ops=[pos], comparators=test.comparators), test)
+                neg = not neg
+                continue
+            return test, neg
+
     def cond_text(self, test, st):
         neg = False
-        while isinstance(test, ast.UnaryOp) and isinstance(test.op, ast.Not):
-            neg = not neg
-            test = test.operand
+        while True:
+            if isinstance(test, ast.UnaryOp) and isinstance(test.op, ast.Not):
+                neg = not neg
+                test = test.operand
+                continue
+            # one canonical atom for a comparison and its negation: `a is not b` is recorded as not (a is b), `!=` as not ==, `not in` as not in
+            if self.canonical_negations and isinstance(test, ast.Compare) and len(test.ops) == 1 and isinstance(test.ops[0], (ast.IsNot, ast.NotEq, ast.NotIn)):
+                pos = {ast.IsNot: ast.Is, ast.NotEq: ast.Eq, ast.NotIn: ast.In}[type(test.ops[0])]()
+                test = ast.copy_location(ast.Compare(left=test.left, ops=[pos], comparators=test.comparators), test)
+                neg = not neg
+                continue
+            break
         v = self.ev(test, st)
         return self.text(v), neg
 
@@ -657,7 +682,7 @@ class SymExec(object):
             txt, neg = self.cond_text(test, st)
             known = st.cond(txt)
             if known is None and self.test_hook:
-                known = self.test_hook(txt, test, st)
+                known = self.test_hook(txt, self.canon_test(test)[0], st)
             if known is not None:
                 t = known != neg
         if t is True:
